@@ -427,6 +427,12 @@ class NotExact(Exception):
     pass
 
 
+def _tdiv(a, b):
+    """Rust integer division: truncation toward zero (Python's // floors)"""
+    q = abs(a) // abs(b)
+    return q if (a >= 0) == (b >= 0) else -q
+
+
 def ev(t, env):
     """value of a normalised term on concrete numbers (a finite table of a closed form; nothing of /repo is executed).
     Floats model f32: every intermediate must be exactly representable (integers or halves below 2^24), else NotExact."""
@@ -452,8 +458,10 @@ def ev(t, env):
                 r = a[0] / a[1]
                 if not f32_exact(r): raise NotExact(show(t))
                 return r
-            return a[0] // a[1]
-        if n == 'Rem': return a[0] % a[1]
+            return _tdiv(a[0], a[1])
+        if n == 'Rem':
+            if isinstance(a[0], float) or isinstance(a[1], float): return math.fmod(a[0], a[1])
+            return a[0] - a[1] * _tdiv(a[0], a[1])
         if n == 'Shr': return a[0] >> a[1]
         if n == 'BitAnd': return a[0] & a[1]
         if n == 'Sub': return a[0] - a[1]
